@@ -640,6 +640,10 @@ def enum_props(tier, seed):
             yield ("line3d", (u, w))
     yield ("line3d_at_infinity", 0)
     yield ("collections", 0)
+    # every line through a point of {-3..3}^3 (quick: {-2..2}^3) with a direction of {-2..2}^3, as slices of one collection
+    k = 3 if deep else 2
+    for x in range(-k, k + 1):
+        yield ("collections3d", (k, x))
 
 
 def check_line2d_props(ctx, G, L, h, tag):
@@ -740,6 +744,47 @@ def case_props(ctx, cfg):
         ctx.trace()
         if e is not None or on_line3(L.array, gp.array) or not np.any(gp.array):
             ctx.fail("general_point:3d", "general_point", inputs, "a point off the line", e if e is not None else gp.array)
+        return
+    if kind == "collections3d":
+        from mc.compare import proj_eq_batch
+
+        k, x0 = data
+        dirs = [v for v in lattice(3, 2) if next(x for x in v if x) > 0]
+        bases = [(x0, y, z) for y in range(-k, k + 1) for z in range(-k, k + 1)]
+        A = np.array([list(u) + [1] for u in bases for w in dirs], dtype=float)
+        D = np.array([list(w) + [0] for u in bases for w in dirs], dtype=float)
+        LC = G.LineCollection(G.PointCollection(A), G.PointCollection(D))
+        bp, e = ctx.call(lambda: LC.base_point)
+        d, e2 = ctx.call(lambda: LC.direction)
+        ctx.trace(2 * len(A))
+        if e or e2:
+            ctx.fail("properties:linecollection3d:raises", "base_point/direction", {"base_x": x0}, "arrays", e or e2)
+            return
+        M = np.asarray(LC.array)
+        b = np.asarray(bp.array)
+        nb = np.linalg.norm(b, axis=-1)
+        on = np.linalg.norm(np.einsum("ni,nij->nj", b, M), axis=-1) <= 1e-8 * np.linalg.norm(M, axis=(-1, -2)) * nb
+        fin = np.abs(b[:, 3]) > 1e-9 * nb
+        # Cartesian: the base point is a + t*w for some t (finite, on the line)
+        okd = proj_eq_batch(d.array, D, 1e-9)
+        bad = np.argwhere(~(on & fin & (nb > 0)))
+        if len(bad):
+            i = int(bad[0][0])
+            ctx.fail("base_point:linecollection3d", "base_point", {"through": A[i][:3], "direction": D[i][:3], "position": i}, "finite point on the line", b[i])
+            return
+        bad = np.argwhere(~okd)
+        if len(bad):
+            i = int(bad[0][0])
+            ctx.fail("direction:linecollection3d", "direction", {"through": A[i][:3], "direction": D[i][:3], "position": i}, D[i], d.array[i])
+            return
+        # every tenth line also as a single object (same answers as the collection)
+        for i in range(0, len(A), 10):
+            L = G.Line(G.Point(A[i]), G.Point(D[i]))
+            b1, e = ctx.call(lambda: L.base_point)
+            ctx.trace()
+            if e is not None or not on_line3(L.array, b1.array) or abs(b1.array[3]) < 1e-9 * np.linalg.norm(b1.array):
+                ctx.fail("base_point:3d", "base_point", {"points": [A[i], D[i]]}, "finite point on the line", e if e is not None else b1.array)
+                return
         return
     if kind == "collections":
         H = np.array(lattice(3, 2), dtype=float)
